@@ -70,6 +70,7 @@ void single_thread() {
             else emitter_coro(col, v).join();                       // from a coroutine, awaiting the suspend point
             dsim::plan_note(" E%d", how);
             for (int i = 0; i < nl; i++) if (m.waiting[i]) { m.got[i]++; if (m.quota[i] > 0 && m.got[i] >= m.quota[i]) m.waiting[i] = false; }
+            for (int c = 0; c < ncb; c++) if (!cb_alive[c]) { if (dsim::cell_get(CB_CALLS + c) != cb_quota[c]) dsim::fail("C15.callback", "callback %d returned false after %d calls but was called %ld times", c, cb_quota[c], dsim::cell_get(CB_CALLS + c)); if (dsim::cell_get(CB_GONE + c) != 1) dsim::fail("C15.callback", "callback %d returned false but was released %ld times", c, dsim::cell_get(CB_GONE + c)); }
             for (int c = 0; c < 2; c++) if (cb_alive[c]) { long n = emitted - cb_first[c] + 1; if (dsim::cell_get(CB_CALLS + c) != n) dsim::fail("C15.callback", "callback %d connected before emission %ld was called %ld times after emission %ld", c, cb_first[c], dsim::cell_get(CB_CALLS + c), emitted); if (n >= cb_quota[c]) cb_alive[c] = false; }
             for (int i = 0; i < nl; i++) check_listener(i, m.first[i], m.first[i] + m.got[i] - 1, false, "after emission");
         } else if (op == 6 && nl < MAXL - 1 && dsim::choose(3) == 0) {   // awaiting a disconnected emitter fails at once
